@@ -25,6 +25,10 @@ for patch in items:
     pm = os.path.join(os.path.dirname(patch), "PROPS.json")
     if os.path.exists(pm) and not allprops:
         props = json.load(open(pm)).get(name, props)
+    if os.environ.get("EVAL_PROPS_ONLY"):
+        props = [q for q in props if q in os.environ["EVAL_PROPS_ONLY"].split(",")]
+        if not props:
+            continue
     env = dict(os.environ, PYVC_REPO=scratch, PYTHONPATH=scratch + "/src", PYTHONDONTWRITEBYTECODE="1")
     for prop in props:
         t0 = time.time()
